@@ -20,46 +20,66 @@ struct Cfg {
     k1: u8,
 }
 
+/// Profiles declared the way the documentation shows: the REAL `#[derive(ConfigProfile)]`
+/// (runtime/pavex_macros/src/config_profile.rs) generates `FromStr` / `AsRef<str>`: the name of a
+/// variant is its snake_case spelling unless `#[px(profile = "..")]` overrides it.
+#[derive(pavex_macros::ConfigProfile, Clone, Copy, PartialEq, Eq)]
+enum Derived {
+    Dev,
+    #[px(profile = "prd")]
+    Prod,
+}
 #[derive(Clone, Copy, PartialEq, Eq)]
 enum Prof {
     Dev,
     Prod,
-    /// a profile whose name contains a dot: the file is still `<name>.yml`
+    /// a profile whose name contains a dot (hand-written: the derive refuses such names): the file is
+    /// still `<name>.yml`
     Dot,
+}
+impl Prof {
+    fn derived(&self) -> Option<Derived> {
+        match self {
+            Prof::Dev => Some(Derived::Dev),
+            Prof::Prod => Some(Derived::Prod),
+            Prof::Dot => None,
+        }
+    }
 }
 impl std::str::FromStr for Prof {
     type Err = &'static str;
     fn from_str(s: &str) -> Result<Self, Self::Err> {
         let b = s.as_bytes();
-        if b.len() == 3 && b[0] == b'd' && b[1] == b'e' && b[2] == b'v' {
-            Ok(Prof::Dev)
-        } else if b.len() == 3 && b[0] == b'p' && b[1] == b'r' && b[2] == b'd' {
-            Ok(Prof::Prod)
-        } else if b.len() == 3 && b[0] == b'p' && b[1] == b'.' && b[2] == b'q' {
-            Ok(Prof::Dot)
-        } else {
-            Err("unknown profile")
+        if b.len() == 3 && b[0] == b'p' && b[1] == b'.' && b[2] == b'q' {
+            return Ok(Prof::Dot);
+        }
+        // the derived parser decides
+        match <Derived as std::str::FromStr>::from_str(s) {
+            Ok(Derived::Dev) => Ok(Prof::Dev),
+            Ok(Derived::Prod) => Ok(Prof::Prod),
+            Err(e) => {
+                std::mem::forget(e);
+                Err("unknown profile")
+            }
         }
     }
 }
-/// which profile the loader last asked for its name (0 = none yet, 1 = dev, 2 = prd)
+/// which profile the loader last asked for its name (0 = none yet), and the name it was given - by
+/// the derived `AsRef<str>` for the first two
 static mut LAST_PROFILE_ASKED: u8 = 0;
+static mut LAST_NAME: &str = "";
 impl AsRef<str> for Prof {
     fn as_ref(&self) -> &str {
-        match self {
-            Prof::Dev => {
-                unsafe { LAST_PROFILE_ASKED = 1 };
-                "dev"
-            }
-            Prof::Prod => {
-                unsafe { LAST_PROFILE_ASKED = 2 };
-                "prd"
-            }
-            Prof::Dot => {
-                unsafe { LAST_PROFILE_ASKED = 3 };
-                "p.q"
-            }
+        let (k, n): (u8, &'static str) = match self.derived() {
+            Some(Derived::Dev) => (1, unsafe { std::mem::transmute::<&str, &'static str>(Derived::Dev.as_ref()) }),
+            Some(Derived::Prod) => (2, unsafe { std::mem::transmute::<&str, &'static str>(Derived::Prod.as_ref()) }),
+            None => (3, "p.q"),
+        };
+        unsafe {
+            LAST_PROFILE_ASKED = k;
+            LAST_NAME = n;
         }
+        n
     }
 }
 impl ConfigProfile for Prof {}
@@ -69,11 +89,16 @@ impl ConfigProfile for Prof {}
 /// name the loader asked for last (its argument). What stays outside the claim is the literal
 /// ".yml" suffix / "{}" template of that one format string.
 fn fmt_stub(_a: std::fmt::Arguments<'_>) -> String {
-    match unsafe { LAST_PROFILE_ASKED } {
-        2 => String::from("prd.yml"),
-        3 => String::from("p.q.yml"),
-        _ => String::from("dev.yml"),
+    // "<name>.yml" with the name the profile's `AsRef<str>` returned (names of the harness: 3 bytes)
+    let n = unsafe { LAST_NAME }.as_bytes();
+    let mut v: Vec<u8> = Vec::with_capacity(8);
+    let mut i = 0;
+    while i < n.len() && i < 4 {
+        v.push(n[i]);
+        i += 1;
     }
+    v.extend_from_slice(b".yml");
+    unsafe { String::from_utf8_unchecked(v) }
 }
 
 /// The process environment: PX_PROFILE is absent, "dev", "prd" or something else ("zz").
